@@ -190,7 +190,7 @@ package sam
 //@   mode int
 //@   props C07
 //@   terminates
-//@   requires bh != nil && p != nil && len(bh.progs) <= 1000000 && progsA(bh) && progsB(bh) && progsC(bh)
+//@   requires bh != nil && p != nil && len(bh.progs) <= 2000000000 && progsA(bh) && progsB(bh) && progsC(bh)
 //@   modifies p.owner, p.id, bh.progs, mapof(bh.seenProgs), arrays(*Program)
 //@   ensures[C07] @invA progsA(bh)
 //@   ensures[C07] @invB progsB(bh)
@@ -203,7 +203,7 @@ package sam
 //@   mode int
 //@   props C07
 //@   terminates
-//@   requires bh != nil && p != nil && len(bh.progs) <= 1000000 && progsA(bh) && progsB(bh) && progsC(bh)
+//@   requires bh != nil && p != nil && len(bh.progs) <= 2000000000 && progsA(bh) && progsB(bh) && progsC(bh)
 //@   modifies p.id, bh.progs, mapof(bh.seenProgs), backing(bh.progs), objects(Program)
 //@   loop 0 invariant @shift 0 <= i && i <= len(bh.progs) - int(old(p.id)) && len(bh.progs) == old(len(bh.progs)) - 1 && p.id == old(p.id) &&
 //@       0 <= old(p.id) && int(old(p.id)) <= len(bh.progs) && bh.seenProgs == old(bh.seenProgs) && has(bh.seenProgs, p.uid)
@@ -235,7 +235,7 @@ package sam
 //@   mode int
 //@   props C07
 //@   terminates
-//@   requires bh != nil && rg != nil && len(bh.rgs) <= 1000000 && rgsA(bh) && rgsB(bh) && rgsC(bh)
+//@   requires bh != nil && rg != nil && len(bh.rgs) <= 2000000000 && rgsA(bh) && rgsB(bh) && rgsC(bh)
 //@   modifies rg.owner, rg.id, bh.rgs, mapof(bh.seenGroups), arrays(*ReadGroup)
 //@   ensures[C07] @invA rgsA(bh)
 //@   ensures[C07] @invB rgsB(bh)
@@ -249,7 +249,7 @@ package sam
 //@   mode int
 //@   props C07
 //@   terminates
-//@   requires bh != nil && rg != nil && len(bh.rgs) <= 1000000 && rgsA(bh) && rgsB(bh) && rgsC(bh)
+//@   requires bh != nil && rg != nil && len(bh.rgs) <= 2000000000 && rgsA(bh) && rgsB(bh) && rgsC(bh)
 //@   modifies rg.id, bh.rgs, mapof(bh.seenGroups), backing(bh.rgs), objects(ReadGroup)
 //@   loop 0 invariant @shift 0 <= i && i <= len(bh.rgs) - int(old(rg.id)) && len(bh.rgs) == old(len(bh.rgs)) - 1 && rg.id == old(rg.id) &&
 //@       0 <= old(rg.id) && int(old(rg.id)) <= len(bh.rgs) && bh.seenGroups == old(bh.seenGroups) && has(bh.seenGroups, rg.name)
@@ -280,7 +280,7 @@ package sam
 //@   mode int
 //@   props C07
 //@   terminates
-//@   requires bh != nil && r != nil && len(bh.refs) <= 1000000 && refsA(bh) && refsB(bh) && refsC(bh)
+//@   requires bh != nil && r != nil && len(bh.refs) <= 2000000000 && refsA(bh) && refsB(bh) && refsC(bh)
 //@   modifies r.id, bh.refs, mapof(bh.seenRefs), backing(bh.refs), objects(Reference)
 //@   loop 0 invariant @shift 0 <= i && i <= len(bh.refs) - int(old(r.id)) && len(bh.refs) == old(len(bh.refs)) - 1 && r.id == old(r.id) &&
 //@       0 <= old(r.id) && int(old(r.id)) <= len(bh.refs) && bh.seenRefs == old(bh.seenRefs) && has(bh.seenRefs, r.name)
@@ -308,12 +308,15 @@ package sam
 //@   mode int
 //@   props C07
 //@   terminates
-//@   requires bh != nil && r != nil && len(bh.refs) <= 1000000 && refsA(bh) && refsB(bh) && refsC(bh)
-//@   modifies all(r), bh.refs, mapof(bh.seenRefs), arrays(*Reference), backing(bh.refs), objects(Reference)
+//@   requires bh != nil && r != nil
+//@   requires @inv refsA(bh) && refsB(bh) && refsC(bh)
+//@   requires @size len(bh.refs) <= 2000000000
+//@   modifies all(r), bh.refs, mapof(bh.seenRefs), bh.refs[0:len(bh.refs)], backing(bh.refs), objects(Reference)
 //@   ensures[C07] @invA refsA(bh)
 //@   ensures[C07] @invB refsB(bh)
 //@   ensures[C07] @invC refsC(bh)
 //@   ensures[C07] @len len(bh.refs) == old(len(bh.refs)) || (result == nil && len(bh.refs) == old(len(bh.refs)) + 1 && bh.refs[old(len(bh.refs))] == r)
+//@   ensures @arr sameArray(bh.refs, old(bh.refs)) || fresh(bh.refs)
 
 // Renaming an item that belongs to a header keeps the invariant: the name
 // table follows the new name, and a name in use by another item is refused.
@@ -324,7 +327,7 @@ package sam
 //@   mode int
 //@   props C07
 //@   terminates
-//@   requires r != nil && (r.owner != nil ==> (len(r.owner.refs) <= 1000000 && refsA(r.owner) && refsB(r.owner) && refsC(r.owner) &&
+//@   requires r != nil && (r.owner != nil ==> (len(r.owner.refs) <= 2000000000 && refsA(r.owner) && refsB(r.owner) && refsC(r.owner) &&
 //@       0 <= r.id && int(r.id) < len(r.owner.refs) && r.owner.refs[int(r.id)] == r))
 //@   modifies r.name, mapof(r.owner.seenRefs)
 //@   ensures[C07] @invA r.owner != nil ==> refsA(r.owner)
@@ -337,7 +340,7 @@ package sam
 //@   mode int
 //@   props C07
 //@   terminates
-//@   requires r != nil && (r.owner != nil ==> (len(r.owner.rgs) <= 1000000 && rgsA(r.owner) && rgsB(r.owner) && rgsC(r.owner) &&
+//@   requires r != nil && (r.owner != nil ==> (len(r.owner.rgs) <= 2000000000 && rgsA(r.owner) && rgsB(r.owner) && rgsC(r.owner) &&
 //@       0 <= r.id && int(r.id) < len(r.owner.rgs) && r.owner.rgs[int(r.id)] == r))
 //@   modifies r.name, mapof(r.owner.seenGroups)
 //@   ensures[C07] @invA r.owner != nil ==> rgsA(r.owner)
@@ -350,7 +353,7 @@ package sam
 //@   mode int
 //@   props C07
 //@   terminates
-//@   requires r != nil && (r.owner != nil ==> (len(r.owner.progs) <= 1000000 && progsA(r.owner) && progsB(r.owner) && progsC(r.owner) &&
+//@   requires r != nil && (r.owner != nil ==> (len(r.owner.progs) <= 2000000000 && progsA(r.owner) && progsB(r.owner) && progsC(r.owner) &&
 //@       0 <= r.id && int(r.id) < len(r.owner.progs) && r.owner.progs[int(r.id)] == r))
 //@   modifies r.uid, mapof(r.owner.seenProgs)
 //@   ensures[C07] @invA r.owner != nil ==> progsA(r.owner)
@@ -398,7 +401,7 @@ package sam
 //@   requires len(dst) >= div(len(src), 2)
 //@   modifies dst[:]
 //@ trusted func ext:bytes.Split
-//@   ensures len(result) >= 1 && fresh(result)
+//@   ensures len(result) >= 1 && len(result) <= len(s) + 1 && fresh(result)
 //@ trusted func NewAux
 
 //@ func ParseAux
@@ -420,7 +423,7 @@ package sam
 //@   props C11
 //@   decoder
 //@   requires bh != nil
-//@   modifies all(bh), arrays(tagPair)
+//@   modifies bh.Version, bh.SortOrder, bh.GroupOrder, bh.otherTags, arrays(tagPair)
 //@ trusted func parseISO8601
 //@ func validLen
 //@   inline
@@ -433,10 +436,11 @@ package sam
 //@   mode int
 //@   props C11, C07
 //@   decoder
-//@   requires bh != nil && len(bh.refs) <= 1000000 && refsA(bh) && refsB(bh) && refsC(bh)
+//@   requires bh != nil && len(bh.refs) <= 2000000000 && refsA(bh) && refsB(bh) && refsC(bh)
 //@   modifies bh.refs, mapof(bh.seenRefs), arrays(*Reference), arrays(tagPair), backing(bh.refs), objects(Reference)
 //@   loop 0 invariant @inv fresh(rf) && refsA(bh) && refsB(bh) && refsC(bh) && bh.refs == old(bh.refs) &&
 //@       (nok ==> (dup == has(bh.seenRefs, rf.name) && (dup ==> dupID == bh.seenRefs[rf.name]))) && (!nok ==> !dup)
+//@   ensures @grow len(bh.refs) <= old(len(bh.refs)) + 1
 //@   ensures[C07] @invA refsA(bh)
 //@   ensures[C07] @invB refsB(bh)
 //@   ensures[C07] @invC refsC(bh)
@@ -445,9 +449,10 @@ package sam
 //@   mode int
 //@   props C11, C07
 //@   decoder
-//@   requires bh != nil && len(bh.rgs) <= 1000000 && rgsA(bh) && rgsB(bh) && rgsC(bh)
+//@   requires bh != nil && len(bh.rgs) <= 2000000000 && rgsA(bh) && rgsB(bh) && rgsC(bh)
 //@   modifies bh.rgs, mapof(bh.seenGroups), arrays(*ReadGroup), arrays(tagPair)
 //@   loop 0 invariant @inv fresh(rg) && rgsA(bh) && rgsB(bh) && rgsC(bh) && bh.rgs == old(bh.rgs) && (idok ==> !has(bh.seenGroups, rg.name))
+//@   ensures @grow len(bh.rgs) <= old(len(bh.rgs)) + 1
 //@   ensures[C07] @invA rgsA(bh)
 //@   ensures[C07] @invB rgsB(bh)
 //@   ensures[C07] @invC rgsC(bh)
@@ -456,9 +461,10 @@ package sam
 //@   mode int
 //@   props C11, C07
 //@   decoder
-//@   requires bh != nil && len(bh.progs) <= 1000000 && progsA(bh) && progsB(bh) && progsC(bh)
+//@   requires bh != nil && len(bh.progs) <= 2000000000 && progsA(bh) && progsB(bh) && progsC(bh)
 //@   modifies bh.progs, mapof(bh.seenProgs), arrays(*Program), arrays(tagPair)
 //@   loop 0 invariant @inv fresh(p) && progsA(bh) && progsB(bh) && progsC(bh) && bh.progs == old(bh.progs) && (idok ==> !has(bh.seenProgs, p.uid))
+//@   ensures @grow len(bh.progs) <= old(len(bh.progs)) + 1
 //@   ensures[C07] @invA progsA(bh)
 //@   ensures[C07] @invB progsB(bh)
 //@   ensures[C07] @invC progsC(bh)
@@ -493,7 +499,7 @@ package sam
 //@ func Header.Clone
 //@   mode int
 //@   props C07
-//@   requires bh != nil && len(bh.refs) <= 1000000 && len(bh.rgs) <= 1000000 && len(bh.progs) <= 1000000
+//@   requires bh != nil && len(bh.refs) <= 2000000000 && len(bh.rgs) <= 2000000000 && len(bh.progs) <= 2000000000
 //@   requires refsA(bh) && refsB(bh) && refsC(bh) && rgsA(bh) && rgsB(bh) && rgsC(bh) && progsA(bh) && progsB(bh) && progsC(bh)
 //@   loop 0 invariant @l0 fresh(c) && cloneShape(c, bh) && tabEmpty(c.seenRefs) && tabEmpty(c.seenGroups) && tabEmpty(c.seenProgs) &&
 //@       refsCopied(c, bh, rangeindex + 1) && (forall k in 0..rangeindex + 1 :: fresh(c.refs[k]))
@@ -527,26 +533,59 @@ package sam
 // identity invariant: the references get their indices as ids, belong to the
 // header, and their names are entered in the name table, so that a later
 // AddReference of a name already present is recognised. Duplicate names in
-// the list are refused. (The header text, when given, is parsed by
-// UnmarshalText, which is not under contract: the postcondition is stated for
-// a nil text.)
-//@ trusted func Header.UnmarshalText
-//@   modifies all(bh), objects(sam.Reference)
+// the list are refused. The header text, when given, is parsed by
+// UnmarshalText, whose contract carries the invariant through.
+//@ spec func hdrOK(h *Header) bool =
+//@     ((h.seenRefs == nil && len(h.refs) == 0) || (refsA(h) && refsB(h) && refsC(h))) &&
+//@     ((h.seenGroups == nil && len(h.rgs) == 0) || (rgsA(h) && rgsB(h) && rgsC(h))) &&
+//@     ((h.seenProgs == nil && len(h.progs) == 0) || (progsA(h) && progsB(h) && progsC(h))) &&
+//@     (h.seenRefs == nil || (h.seenRefs != h.seenGroups && h.seenRefs != h.seenProgs)) && (h.seenGroups == nil || h.seenGroups != h.seenProgs)
+//@ spec func hdrInv(h *Header) bool =
+//@     refsA(h) && refsB(h) && refsC(h) && rgsA(h) && rgsB(h) && rgsC(h) && progsA(h) && progsB(h) && progsC(h)
+
+// Header.UnmarshalText (C11, C07): the header text parser does not fault on
+// any text, and a header that satisfies the identity invariant (or is the
+// zero Header) satisfies it afterwards, whether or not an error is returned.
+//@ func Header.UnmarshalText
+//@   mode int
+//@   props C11, C07
+//@   decoder
+//@   requires bh != nil
+//@   requires @size len(text) <= 100000000 && len(bh.refs) <= 1900000000 && len(bh.rgs) <= 1900000000 && len(bh.progs) <= 1900000000
+//@   requires hdrOK(bh)
+//@   modifies all(bh), bh.refs, mapof(bh.seenRefs), arrays(*Reference), backing(bh.refs), objects(Reference),
+//@       bh.rgs, mapof(bh.seenGroups), arrays(*ReadGroup), bh.progs, mapof(bh.seenProgs), arrays(*Program), arrays(tagPair), arrays(string)
+//@   loop 0 invariant @tabs (bh.seenRefs == old(bh.seenRefs) || fresh(bh.seenRefs)) && (bh.seenGroups == old(bh.seenGroups) || fresh(bh.seenGroups)) &&
+//@       (bh.seenProgs == old(bh.seenProgs) || fresh(bh.seenProgs)) &&
+//@       bh.seenRefs != bh.seenGroups && bh.seenRefs != bh.seenProgs && bh.seenGroups != bh.seenProgs
+//@   loop 0 invariant @refs refsA(bh) && refsB(bh) && refsC(bh) && len(bh.refs) <= old(len(bh.refs)) + rangeindex + 1
+//@   loop 0 invariant @rgs rgsA(bh) && rgsB(bh) && rgsC(bh) && len(bh.rgs) <= old(len(bh.rgs)) + rangeindex + 1
+//@   loop 0 invariant @progs progsA(bh) && progsB(bh) && progsC(bh) && len(bh.progs) <= old(len(bh.progs)) + rangeindex + 1
+//@   ensures[C07] @refs refsA(bh) && refsB(bh) && refsC(bh)
+//@   ensures[C07] @rgs rgsA(bh) && rgsB(bh) && rgsC(bh)
+//@   ensures[C07] @progs progsA(bh) && progsB(bh) && progsC(bh)
+//@   ensures @tabs bh.seenRefs == old(bh.seenRefs) || fresh(bh.seenRefs)
+//@   ensures @grow len(bh.refs) <= old(len(bh.refs)) + len(text) + 1
 
 //@ func NewHeader
 //@   mode int
 //@   props C07
-//@   requires len(r) <= 1000000 && (forall k in 0..len(r) :: r[k] != nil) &&
+//@   requires len(r) <= 1900000000 && len(text) <= 100000000 && (forall k in 0..len(r) :: r[k] != nil) &&
 //@       (forall k in 0..len(r) :: forall j in 0..len(r) :: (k != j ==> r[k] != r[j]))
-//@   modifies objects(Reference)
+//@   modifies objects(Reference), r[0:len(r)], backing(r), arrays(*Reference), arrays(*ReadGroup), arrays(*Program), arrays(tagPair), arrays(string)
 //@   loop 0 invariant @own fresh(bh) && bh.seenRefs != nil && fresh(bh.seenRefs) && bh.refs == r &&
 //@       (forall k in 0..rangeindex + 1 :: (r[k].owner == bh && int(r[k].id) == k && has(bh.seenRefs, r[k].name) && int(bh.seenRefs[r[k].name]) == k)) &&
 //@       (forall s string :: has(bh.seenRefs, s) ==> (0 <= bh.seenRefs[s] && int(bh.seenRefs[s]) < rangeindex + 1 && r[int(bh.seenRefs[s])].name == s)) &&
 //@       (forall k in rangeindex + 1..len(r) :: (r[k].owner == old(r[k].owner) && r[k].id == old(r[k].id))) &&
 //@       (forall k in 0..len(r) :: r[k].name == old(r[k].name))
-//@   ensures[C07] @invA (text == nil && result1 == nil) ==> refsA(result0)
-//@   ensures[C07] @invB (text == nil && result1 == nil) ==> refsB(result0)
-//@   ensures[C07] @invC (text == nil && result1 == nil) ==> refsC(result0)
+//@   loop 0 invariant @rest bh.seenGroups != nil && fresh(bh.seenGroups) && bh.seenProgs != nil && fresh(bh.seenProgs) &&
+//@       bh.seenRefs != bh.seenGroups && bh.seenRefs != bh.seenProgs && bh.seenGroups != bh.seenProgs &&
+//@       len(bh.rgs) == 0 && len(bh.progs) == 0 && tabEmpty(bh.seenGroups) && tabEmpty(bh.seenProgs)
+//@   ensures[C07] @invA result1 == nil ==> refsA(result0)
+//@   ensures[C07] @invB result1 == nil ==> refsB(result0)
+//@   ensures[C07] @invC result1 == nil ==> refsC(result0)
+//@   ensures[C07] @rgs result1 == nil ==> (rgsA(result0) && rgsB(result0) && rgsC(result0))
+//@   ensures[C07] @progs result1 == nil ==> (progsA(result0) && progsB(result0) && progsC(result0))
 
 // Seq accessors (C11): on a sequence whose packed bytes have the announced
 // length (what bam.Reader.Read and NewSeq deliver) Expand and At stay inside
@@ -588,3 +627,36 @@ package sam
 //@   requires h != nil ==> forall k in 0..len(h.refs) :: h.refs[k] != nil
 //@   modifies all(r)
 //@   ensures[C11] @seq result == nil ==> (r.Seq.Length >= 0 && len(r.Seq.Seq) == div(r.Seq.Length + 1, 2) && (len(r.Qual) == 0 || len(r.Qual) == r.Seq.Length))
+
+// The binary (BAM) header decoder (C11): lengths read from the stream are
+// checked before they size an allocation or index a name.
+//@ table bamMagic
+//@ trusted func ext:io.Reader.Read
+//@   modifies p[:]
+//@   ensures 0 <= n && n <= len(p)
+//@ func min
+//@   inline
+//@ func readRefRecords
+//@   mode bv
+//@   anymode
+//@   props C11
+//@   decoder
+//@   requires r != nil && 0 <= n
+//@   loop 0 invariant @idx 0 <= i && i <= int(n) && len(rr) == i && (cap(rr) == 0 || fresh(rr))
+//@   loop 0 invariant @nonnil forall k in 0..len(rr) :: rr[k] != nil
+//@   ensures @nonnil result1 == nil ==> (forall k in 0..len(result0) :: result0[k] != nil)
+//@   ensures @own cap(result0) == 0 || fresh(result0)
+//@   loop 0 decreases int(n) - i
+//@ func Header.DecodeBinary
+//@   mode int
+//@   props C11, C07
+//@   decoder
+//@   assumes pre Header.UnmarshalText @size
+//@   assumes pre Header.AddReference @size
+//@   requires bh != nil && r != nil && hdrOK(bh)
+//@   modifies all(bh), bh.refs, mapof(bh.seenRefs), arrays(*Reference), backing(bh.refs), objects(Reference),
+//@       bh.rgs, mapof(bh.seenGroups), arrays(*ReadGroup), bh.progs, mapof(bh.seenProgs), arrays(*Program), arrays(tagPair), arrays(string)
+//@   loop 0 invariant @inv refsA(bh) && refsB(bh) && refsC(bh) && (bh.seenRefs == old(bh.seenRefs) || fresh(bh.seenRefs))
+//@   loop 0 invariant @own cap(refs) == 0 || (fresh(refs) && !sameBacking(refs, bh.refs))
+//@   loop 0 invariant @list forall k in 0..len(refs) :: refs[k] != nil
+//@   ensures[C07] @refs result == nil ==> (refsA(bh) && refsB(bh) && refsC(bh))
